@@ -301,9 +301,13 @@ def plan_c08(tier, seed):
     add("g2", 2, 1, 2, kind="cmd", id="C08-g2-i2-m2-cmd"); add("g3", 2, 1, 2, kind="cmd", id="C08-g3-i2-m2-cmd"); add("g5b", 1, 1, 2, kind="cmd", id="C08-g5b-i1-m2-cmd")
     if tier != "quick":
         add("g2", 3, 2, 2); add("g3", 3, 1, 3); add("g3", 3, 1, 2); add("g5b", 2, 1, 2); add("g5b", 2, 1, 3); add("g12", 3, 1, 2); add("g12", 4, 2, 3); add("g7", 2, 1, 2)
+    # streaming out-ports: two streamed items in flight, a pass-through process notes their order (real FIFOs, see C17)
+    for size, mx in ((1, 4),) if tier == "quick" else ((1, 4), (65537, 4)):
+        jobs.append({"id": f"C08-stream-order-s{size}-m{mx}", "prop": "C08", "kind": "stream", "mode": "delay", "delay": 1, "budget": budget(tier, 40, 300), "oracles": [], "events_dep": False, "force_all": -1,
+                     "args": {"n": "2", "size": str(size), "max": str(mx), "spy": "1", "only_order": "1"}})
     jobs.extend(mem_jobs("C08", o, tier, [("g2", 2, 2), ("g5b", 1, 2)] if tier == "quick" else [("g2", 2, 2), ("g5b", 1, 2), ("g3", 2, 2), ("g2", 3, 2)], extra="recorder"))
     return {"level": "model_checking", "native": True, "race_too": True, "stages": [lambda ctx, prev: jobs],
-            "rule": "every Mazurkiewicz trace (task completion order is just scheduling); a recorder process reads the observed out-port; emitted sequence == reference arrival order (single upstream) / per-upstream subsequences keep their order (fan-in); memory-level pass: some scenarios again on the race-instrumented build, where map operations and accesses to mutable struct fields are scheduling points too",
+            "rule": "every Mazurkiewicz trace (task completion order is just scheduling); a recorder process reads the observed out-port; emitted sequence == reference arrival order (single upstream) / per-upstream subsequences keep their order (fan-in); streaming out-port: 2 items in flight through real FIFOs, order noted by a pass-through process (<= 1 delay); memory-level pass: some scenarios again on the race-instrumented build, where map operations and accesses to mutable struct fields are scheduling points too",
             "assumptions": BASE_ASSUMPTIONS}
 
 
@@ -624,13 +628,15 @@ def plan_c01(tier, seed):
                         jobs.append(with_delay_fallback(wf("C01", g, i, 1, m, kind, oracles=o, tier=tier, events_dep=False, crash=True, disk_dep=(m == 1),
                                                            fault={"proc": p, "match": mt, "kind": fk}, id=f"C01-fault-{g}-i{i}-m{m}-{kind}-{p}-{mt}-{fk}")))
         jobs.append(wf("C01", "g2", 1, 1, 1, "func", oracles=o + ["clean"], tier=tier, events_dep=False, crash=True, disk_dep=True, extra="writeidiom", id="C01-gofunc-write-idiom"))
+        # environment deviation: the absolute destination is on another device, rename(2) answers EXDEV
+        jobs.append(with_delay_fallback(wf("C01", "g2", 1, 1, 1, "cmd", oracles=o, tier=tier, events_dep=False, crash=True, disk_dep=True, extra="absout", xdev="abs", id="C01-crash-absout-other-device")))
         # a file-writing component: every part FileSplitter finalizes is complete at every instant
         jobs.append(with_delay_fallback(wf("C01", "gsplit1", 1, 1, 1, "func", oracles=o + ["clean"], tier=tier, events_dep=False, crash=True, disk_dep=True, id="C01-crash-filesplitter-3lines")))
         if tier != "quick":
             jobs.append(with_delay_fallback(wf("C01", "gsplit1", 2, 1, 2, "func", oracles=o + ["clean"], tier=tier, events_dep=False, crash=True, disk_dep=False, id="C01-crash-filesplitter-2files")))
         return jobs
     return {"level": "fault_enumeration", "stages": [stage1],
-            "rule": "crash points: the disk after EVERY file-system mutation (partial writes, each rename, each step of temp-dir removal) of every explored schedule (one task in flight: FS mutations globally dependent, closed; two in flight: path-dependent DPOR + delay bound) x fault kinds {exit before/mid/after writing, killed, output missing} per task; state predicate on every such disk: a declared output that exists holds the complete reference bytes and its task ended successfully, every other new data file is below a _scipipe_tmp* directory; distinct_nontrivial = distinct crash states + distinct (fault, outcome) pairs",
+            "rule": "crash points: the disk after EVERY file-system mutation (partial writes, each rename, each step of temp-dir removal) of every explored schedule (one task in flight: FS mutations globally dependent, closed; two in flight: path-dependent DPOR + delay bound) x fault kinds {exit before/mid/after writing, killed, output missing} per task; + an absolute destination on another device (rename answers EXDEV); state predicate on every such disk: a declared output that exists holds the complete reference bytes and its task ended successfully, every other new data file is below a _scipipe_tmp* directory; distinct_nontrivial = distinct crash states + distinct (fault, outcome) pairs",
             "assumptions": BASE_ASSUMPTIONS + ["kill = process-group kill: completed syscalls persist (no power-loss model)", "the .audit.json side-car and parent directories created at the final location are not 'output files' in the statement's sense"],
             "distinct_nontrivial_fn": lambda rs: sum((r.get("distinct_crash_states") or 0) + (r.get("distinct_outcomes") or 0) for r in rs)}
 
